@@ -62,6 +62,16 @@ FIRST_MISSED = {
  "C19-j": "the harness re-assembled the pipeline by hand; server stream through the real statsd.Server.RunWithCustomSocket with HTTP ingestion and both entry points added",
  "C20-i": "data was ingested over a unix-datagram socket and never concurrently with runtimeDone; httpdata stream (HTTP ingestion racing runtimeDone, several slots) added",
  "C20-j": "as C20-i (large batches posted right before runtimeDone)",
+ # round 6
+ "C01-k": "the sys stream wired parsers straight to the BackendHandler; the real TagHandler (default and with static tags) put in between, repeated / permuted tag lists added",
+ "C04-k": "OTLP resource_keys were never set; backend options drawn as an operator can write them (repeated keys, boundary batch sizes, graphite prefixes)",
+ "C07-l": "nothing called SplitByTags; splitbytags op (real SplitByTags then MergeMaps of the parts) added (C15's check caught it)",
+ "C09-l": "datapoints only arrived over UDP; half of the e2e cases now POST /v2/raw to the server's own HTTP ingestion (C14's check caught it)",
+ "C12-l": "CacheOptions were passed to the constructor directly; cfg stream runs the real cmd/gostatsd binary on flags / TOML and compares the resolved cache options",
+ "C15-k": "no upstream outcome had a 2xx status followed by a broken response body; kinds short body / reset after headers / stalled body added (a 2xx status is a success)",
+ "C17-l": "constructors received the sub-metric mask directly; every backend now built by its real NewClientFromViper from the documented configuration layout",
+ "C19-k": "the server stream used a null statser and did not check the state when Run returned; default statser, disable-internal-events drawn, slow sends, return check added",
+ "C20-l": "the extension was wired through pkg/lambda.NewExtension, not cmd/lambda-extension's configuration code; binary stream builds and runs the real cmd/lambda-extension as a child process",
 }
 rows = []
 for d in sorted(glob.glob(os.path.join(ROOT, "seeded", "C??-?"))):
